@@ -345,6 +345,24 @@ def run(ctx):
                     ctx.count()
                     ctx.label('unknown-pair-as-first-call')
                     ctx.violations(examine_unknown(dict(case, cold=True)))
+    # generated unknown pairs: pieces of real keys glued with the characters a key is built from ('-', blanks, case), so that
+    # whatever the lookup does with the two strings (joins, splits, upper-cases them) an unknown pair still gives None
+    known = set((r[0].upper(), r[1].upper()) for r in allr) | set((r[0].upper(), r[2].upper()) for r in allr)
+    urng = random.Random(derive_seed(ctx.seed, 'C01-unknown'))
+    pieces = ['M', 'F', 'm', 'f', '100', '100H', 'HJ', 'PEN', 'U20', '-', '-', ' ', '', 'X', '?', 'None', '800', 'I', 'Y', '%s', '%',
+              '110H', '80H', '0', '1e3']
+    made = 0
+    while made < (3000 if ctx.tier == 'thorough' else 600):
+        g = ''.join(urng.choice(pieces) for _ in range(urng.randrange(0, 3)))
+        e = ''.join(urng.choice(pieces) for _ in range(urng.randrange(0, 4)))
+        if (g.upper(), e.upper()) in known:
+            continue
+        made += 1
+        case = {'kind': 'unknown', 'gender': g, 'event': e, 'value': urng.choice([0, 10.5, 100, 2000.0]),
+                'age': urng.choice([None, None, 20, 40, 77])}
+        ctx.count()
+        ctx.label('unknown-pair-generated')
+        ctx.violations(examine_unknown(case))
     reset_state()
     mixed_pass(ctx, allr)
     ctx.extra['rows'] = len(rows)
